@@ -2,6 +2,7 @@ package main
 
 import (
 	"bytes"
+	"iter"
 	"math/rand"
 	"strconv"
 
@@ -21,11 +22,28 @@ type faRec struct {
 func faProject(f *fasta.Fasta) faRec { return faRec{ints(f.Name), ints(f.Sequence)} }
 
 // faRead runs the real Reader over data and returns the projected items.
+// faPairedWith: when set, faRead advances a second reader over this text in lockstep
+var faPairedWith []byte
+
 func faRead(data []byte) (items []faRec, gotErr bool, panicked bool) {
 	items = []faRec{}
 	var kept []*fasta.Fasta // records are projected after the iteration: a delivered record must stay what it was
 	panicked, _ = catch(func() {
-		for f, err := range fasta.Reader(bytes.NewReader(data)) {
+		seq := fasta.Reader(bytes.NewReader(data))
+		if faPairedWith != nil { // consumed in lockstep with a reader over another text
+			next, stop := iter.Pull2(fasta.Reader(bytes.NewReader(faPairedWith)))
+			defer stop()
+			inner := seq
+			seq = func(yield func(*fasta.Fasta, error) bool) {
+				for f, err := range inner {
+					next()
+					if !yield(f, err) {
+						return
+					}
+				}
+			}
+		}
+		for f, err := range seq {
 			if err != nil {
 				gotErr = true
 				continue
@@ -343,6 +361,10 @@ func fastaDrive(args []string) error {
 				Bytes: ints(data), Want: want}
 			ev.Items, ev.Err, ev.Panic = faRead(data)
 			tw.emit(ev)
+		}
+		faPairedWith = nil
+		if sid%5 == 3 {
+			faPairedWith = []byte(">other\nACGT\nAC\n>o2\n\n>o3\nTTTT\n")
 		}
 		emitRead("own-writer", own)
 		if long < 0 || long <= 5000 {
